@@ -4,7 +4,7 @@ prop(
     "C18",
     level="exploration",
     technique="runtime monitor: real Parameters<Role>::parse_from_bytes / Parameters::{recv_remote_params, initial_scid_from_peer_need_equal, "
-    "negotiated_max_idle_timeout} / is_0rtt_accepted against an RFC 9000 §7.4/§18.2 MUST-reject table computed from the blob bytes by an independent reader; thorough tier repeats the fixed tables under the Miri interpreter",
+    "negotiated_max_idle_timeout} / is_0rtt_accepted against an RFC 9000 §7.4/§18.2 MUST-reject table computed from the blob bytes by an independent reader",
     level_text="One-directional table oracle: for every generated transport-parameter blob (both sender roles; all single and double omissions of the "
     "full id set; every integer id at and beyond every bound in every varint width; body lengths 0..44 for every id; role-swapped ids; unknown/grease ids; "
     "every strict prefix of a full blob; random mixes with duplicates and several defects) acceptance by the real parser implies the blob is not in the "
@@ -21,8 +21,7 @@ prop(
     "retry_source_connection_id binding (the client never processes Retry; retry_scid_from_server_need_equal has no production caller).  Blobs on which the "
     "parser panics are skipped and counted (C03 owns decoder panics; locations listed in evidence notes).  Trusted: the 120-line table/TLV reader in c18.rs.",
     design_ref="DESIGN.md §3 C18",
-    legs=[dict(name="params", crate="l1base", sub="c18", shards={Q: 8, T: 16}, budget={Q: 60000, T: 400000}, timeout=1500),
-          dict(name="miri", kind="miri", crate="l1base", sub="c18", tiers=(T,), budget={T: 2}, timeout=5400, mandatory=False)],
+    legs=[dict(name="params", crate="l1base", sub="c18", shards={Q: 8, T: 16}, budget={Q: 60000, T: 400000}, timeout=1500)],
     floors={
         Q: {
             "parse_blobs": 200_000,
